@@ -48,6 +48,7 @@ type RequestContext struct {
 	err             error
 
 	savedBody any
+	hmdlReq   *heimdall.Request
 	outputs   map[string]any
 }
 
@@ -91,12 +92,18 @@ func canonicalizeHeaders(headers map[string]string) map[string]string {
 }
 
 func (r *RequestContext) Request() *heimdall.Request {
-	return &heimdall.Request{
-		RequestFunctions:  r,
-		Method:            r.reqMethod,
-		URL:               &heimdall.URL{URL: *r.reqURL},
-		ClientIPAddresses: r.ips,
+	// created lazy and cached, as values set on the request object, like
+	// the captures set while matching the rule, must survive
+	if r.hmdlReq == nil {
+		r.hmdlReq = &heimdall.Request{
+			RequestFunctions:  r,
+			Method:            r.reqMethod,
+			URL:               &heimdall.URL{URL: *r.reqURL},
+			ClientIPAddresses: r.ips,
+		}
 	}
+
+	return r.hmdlReq
 }
 
 func (r *RequestContext) Headers() map[string]string { return r.reqHeaders }
